@@ -22,7 +22,19 @@ pub fn gen(args: &Args) {
         };
         let mut t = tree::gen_tree(&mut r, &cfg);
         tree::shorten(&mut t);
-        let prof = tree::gen_profile(&mut r, &t, id % 3, cfg.dyadic);
+        let mut prof = tree::gen_profile(&mut r, &t, id % 3, cfg.dyadic);
+        // every fourth case whose root is a decision with several actions: the root mixes its first and last action
+        // evenly (the replay derives the EXTREME variant of such a case from it, see `extreme_variant`)
+        if id % 4 == 2 {
+            if let Tree::P { pl, info, kids } = &t {
+                if kids.len() >= 2 {
+                    let mut w = vec![0i64; kids.len()];
+                    w[0] = 1;
+                    w[kids.len() - 1] = 1;
+                    prof[*pl as usize - 1].insert(info.clone(), w);
+                }
+            }
+        }
         out.line(&json!({"id": id, "tree": t, "prof": prof}));
     }
 }
@@ -51,6 +63,30 @@ pub fn evaluate_as(t: &Tree, prof: &Profile, split: bool) -> Result<[f64; 6], St
         ])
     })
     .and_then(|r| r)
+}
+
+/// EXTREME ratio and magnitude together, derived from an ordinary case whose root decision mixes its first and last
+/// action evenly: the root plays the first action with weight 2^60 and the last with weight 1 (probabilities exactly 1.0
+/// and 2^-60 in floating point), and every payoff below the last action is multiplied by 2^60 (exact).  Utility is linear
+/// in the root's distribution and the OTHER player's best response maximises the same linear form, so utility and the
+/// other player's regret are those of the ordinary case times 2 W / (W + 1) = 2 (1 - 2^-60): the exact values TLC
+/// computed for the ordinary case decide the extreme one.  (The root player's own regret is not related: not judged.)
+fn extreme_variant(t: &Tree, prof: &Profile) -> Option<(Tree, Profile, u8)> {
+    let Tree::P { pl, info, kids } = t else { return None };
+    let n = kids.len();
+    let w = prof[*pl as usize - 1].get(info)?;
+    if n < 2 || w.len() != n || w[0] != 1 || w[n - 1] != 1 || w[1..n - 1].iter().any(|x| *x != 0) {
+        return None;
+    }
+    let big = 2f64.powi(60);
+    let mut kids2 = kids.clone();
+    kids2[n - 1].t.map_pay(&mut |p| tree::Num::F(p.f() * big));
+    let mut prof2 = prof.clone();
+    let mut w2 = vec![0i64; n];
+    w2[0] = 1i64 << 60;
+    w2[n - 1] = 1;
+    prof2[*pl as usize - 1].insert(info.clone(), w2);
+    Some((Tree::P { pl: *pl, info: info.clone(), kids: kids2 }, prof2, *pl))
 }
 
 /// compare get_info() of the real code with the exact values computed by TLC
@@ -127,6 +163,22 @@ pub fn replay(args: &Args) {
                 }
                 if !util::close(gt, tot, tol) || gt != f64::max(g1, g2) {
                     bad.push(json!({"class": "total", "what": "total regret is not the larger player regret", "observed": gt, "specified": exp["total"]}));
+                }
+                if let Some((tx, px, root_pl)) = extreme_variant(&t, &prof) {
+                    match evaluate_as(&tx, &px, false) {
+                        Err(msg) => bad.push(json!({"class": "extreme:failed", "what": "evaluation failed on the extreme variant (root weights 2^60 : 1, payoffs x 2^60 below the rare action)", "observed": msg})),
+                        Ok([x1, _, h1, h2, _, _]) => {
+                            if !util::close(x1, 2.0 * u, tol) {
+                                bad.push(json!({"class": "extreme:utility", "what": "utility of the extreme variant is not twice the utility of the even mixture",
+                                    "observed": x1, "specified_even_mixture": exp["util"]}));
+                            }
+                            let (got, want, which) = if root_pl == 1 { (h2, 2.0 * r2, "two") } else { (h1, 2.0 * r1, "one") };
+                            if !util::close(got, want, tol) {
+                                bad.push(json!({"class": "extreme:regret", "what": "regret of the player who does not move at the root is not twice that of the even mixture (extreme variant)",
+                                    "player": which, "observed": got, "specified_even_mixture": if root_pl == 1 { exp["r2"].clone() } else { exp["r1"].clone() }}));
+                            }
+                        }
+                    }
                 }
                 let nontrivial = t.stats().1 >= 1;
                 if bad.is_empty() {
